@@ -315,7 +315,7 @@ def correspond(rng, tier, driver):
     if res.inconclusive:
         res.distribution["inconclusive_runs"] = res.inconclusive[:10]
         print("C14: %d of %d scenario runs were inconclusive (busy machine: a cap expired or the student thread was "
-              "starved); they are skipped, not judged" % (len(res.inconclusive), len(scs)))
+              "starved); they are not compared with the model (the oracle still judges what they show)" % (len(res.inconclusive), len(scs)))
     for c in crashed:
         # the scenario script itself fell over (twice): the check no longer observes what it is meant to observe
         res.evaluations += 1
